@@ -171,6 +171,8 @@ int cmd_args(const case_t *c)
     int_t incx = 1, incy = 1; equed_t equed = NOEQUIL; trans_t tr = NOTRANS; int nprocs = 1;
     const char *l1 = "?", *l2 = "";
     /* snapshot headers so that the planted damage can be undone before the fixture is released */
+    /* anr=1: the same arrays handed over as a ROW-wise matrix (legal; the drivers build a column-wise view of it) */
+    if (cint(c, "anr", 0) && (!strcmp(rt, "gssv") || !strcmp(rt, "gssvx"))) F.A.Stype = SLU_NR;
     SuperMatrix A0 = F.A, B0 = F.B, X0 = F.X, L0 = F.L, U0 = F.U; DNformat Bs0 = *(DNformat *)F.B.Store, Xs0 = *(DNformat *)F.X.Store;
     real_t Rmid = F.R[F.n / 2], Cmid = F.C[F.n / 2];
     int p1 = apply(rt, v1, &F, s1, s2, s3, &incx, &incy, &equed, &tr, &nprocs, &l1);
